@@ -66,7 +66,7 @@ def main():
             report["existing_tests"] = "pass" if not [f for f in fails if f not in build_fail and f.strip() != "FAIL"] else "FAIL: " + "; ".join(fails[:5])
         # demo with the patch
         demo_dir = os.path.join(wt, meta.get("demo_dir", "."))
-        demos = [f for f in glob.glob(out + "/*") if os.path.basename(f) not in ("patch.diff", "meta.json")]
+        demos = [f for f in glob.glob(out + "/*") if os.path.basename(f) not in ("patch.diff", "meta.json") and not f.endswith(".log") and not f.endswith(".md") and not f.endswith(".txt")]
         copied = []
         for f in demos:
             if os.path.isdir(f):
@@ -74,14 +74,19 @@ def main():
                 shutil.copytree(f, dst, dirs_exist_ok=True)
             else:
                 os.makedirs(demo_dir, exist_ok=True)
-                dst = os.path.join(demo_dir, os.path.basename(f))
+                base = os.path.basename(f)
+                if base.endswith("_test.go"):
+                    base = "zz_seed_" + base
+                dst = os.path.join(demo_dir, base)
                 shutil.copy(f, dst)
             copied.append(dst)
         cmd = meta.get("demo_cmd", "go test -vet=off -count=1 .")
-        cmd = cmd.replace(sd + "/wt/", "").replace("cd " + sd + "/wt && ", "")
-        rc_with, o_with = sh(cmd, cwd=wt if not cmd.startswith("cd ") else None, timeout=1200)
+        m = re.search(r"(go (?:test|run|vet) .*)$", cmd)
+        if m:
+            cmd = m.group(1)
+        rc_with, o_with = sh(cmd, cwd=wt, timeout=1800)
         sh(["git", "apply", "-R", patch], cwd=wt)
-        rc_without, o_without = sh(cmd, cwd=wt if not cmd.startswith("cd ") else None, timeout=1200)
+        rc_without, o_without = sh(cmd, cwd=wt, timeout=1800)
         for c in copied:
             if os.path.isdir(c):
                 shutil.rmtree(c, ignore_errors=True)
